@@ -82,9 +82,10 @@ def step (s : St) : Act → Option St
     | some (_, pc) =>
       let rest := s.unl.filter (·.1 ≠ t)
       match pc with
-      | .u0 => some { s with timer := .none, unl := (if s.timer = .fired then rest else rest ++ [(t, .u1)]) }
+      | .u0 => some { s with timer := .none, unl := (if s.timer = .fired then rest ++ [(t, .u2f)] else rest ++ [(t, .u1)]) }
       | .u1 => if s.held then some { s with held := false, unl := rest ++ [(t, .u2)] } else some { s with unl := rest }
       | .u2 => some { s with booked := false, unl := rest }
+      | .u2f => some { s with booked := false, unl := rest }
 
 def init (lease : Bool) : St :=
   { lease := lease, held := false, timer := .none, booked := false, entry := true, cb := .none, g := .g0, d := .d0,
